@@ -376,6 +376,7 @@ pub fn gen_plan(rng: &mut Prng, property: &str, tier: &Tier) -> EnvPlan {
     };
     let clients = rng.range(1, tier.max_clients as usize) as u8;
     let nsteps = if big { rng.range(5, 25) } else { rng.range(5, tier.max_steps) };
+    let marathon_steps = 2600usize;
     let mut names: Vec<String> = fast::NAME_POOL.iter().map(|s| s.to_string()).collect();
     rng.shuffle(&mut names);
     names.truncate(nvars);
@@ -424,8 +425,13 @@ pub fn gen_plan(rng: &mut Prng, property: &str, tier: &Tier) -> EnvPlan {
     let ids_dense = !(property != "C19" && rng.chance(1, 3));
     let cross_env = rng.coin();
     // C19: a third of the runs are driven by set clients alone (no raw-API handle is kept alive)
-    let sets_only = property == "C19" && rng.chance(1, 3);
+    // C19 marathon: one run in 20000 is a very long history of one environment driven by set clients
+    // over a 64-bit universe (hundreds of thousands of interned nodes, millions of sub-operations):
+    // state that only builds up over long use
+    let marathon = property == "C19" && rng.chance(1, 50000);
+    let sets_only = marathon || (property == "C19" && rng.chance(1, 3));
     let hold_leaves = !(sets_only || rng.chance(1, 6));
+    let (set_bits, nsteps) = if marathon { (64usize, marathon_steps) } else { (set_bits, nsteps) };
     let mut steps = Vec::with_capacity(nsteps);
     // every run starts by building a few variables so that operands are not all constants
     for i in 0..if sets_only { 0 } else { nvars.min(3) } {
@@ -519,7 +525,9 @@ pub fn gen_plan(rng: &mut Prng, property: &str, tier: &Tier) -> EnvPlan {
                 let alias = faults.alias && rng.chance(faults.rate.max(10), 100);
                 let a = sel(rng);
                 let b = if alias { a } else { sel(rng) };
-                let e = if set_bits > 8 {
+                let e = if marathon && rng.chance(9, 10) {
+                    rng.next_u64() as usize
+                } else if set_bits > 8 {
                     let ones = mask_bits(usize::MAX, set_bits);
                     match rng.below(8) {
                         0 => 0,
@@ -552,7 +560,8 @@ pub fn gen_plan(rng: &mut Prng, property: &str, tier: &Tier) -> EnvPlan {
                     steps.push(mk(Op::SetContains(a, e)));
                     continue;
                 }
-                match rng.weighted(&[2, 2, 1, 1, 6, 3, 3, 3, 1, 1, 6, 1]) {
+                let set_weights: [u32; 12] = if marathon { [0, 1, 0, 0, 14, 3, 3, 3, 0, 0, 5, 0] } else { [2, 2, 1, 1, 6, 3, 3, 3, 1, 1, 6, 1] };
+                match rng.weighted(&set_weights) {
                     0 => Op::SetNew,
                     1 => Op::SetFromElement(e),
                     2 => Op::SetFromBdd(sel(rng)),
@@ -2068,8 +2077,15 @@ impl<'p, W: World> Exec<'p, W> {
         out.plan_digest = digest_bytes(&plan_bytes);
         let mut violation: Option<Violation> = None;
         let mut ticks = 0u64;
+        let started = std::time::Instant::now();
         for (i, step) in plan.steps.iter().enumerate() {
             self.cur_step = i;
+            // safety net only (never reached on the unchanged tree): a run that has been going for
+            // minutes of wall-clock time is abandoned unjudged instead of stalling the batch
+            if i % 16 == 0 && started.elapsed().as_secs() > 90 {
+                out.unjudged = Some("wall-clock watchdog (90 s) — run abandoned".into());
+                break;
+            }
             if matches!(step.op, Op::Nop) {
                 continue;
             }
@@ -2415,8 +2431,17 @@ impl<'p> Exec<'p, UWorld> {
             }
             _ => return Ok(true),
         }
-        if c19 {
+        // very long histories (marathon runs) are checked at queries, every 64th step and at the end
+        let long = self.plan.steps.len() > 500;
+        let check_now = !long || matches!(step.op, Op::SetContains(..)) && step_no % 8 == 0 || step_no % 64 == 0 || step_no + 1 == self.plan.steps.len();
+        if c19 && check_now {
             self.check_sets(step_no, &opname)?;
+        }
+        if long && !check_now {
+            return Ok(true);
+        }
+        if long {
+            bump(&mut self.stats, "probe.marathon_checkpoint");
         }
         // what the sets actually contain is part of the run's trace (read off the diagrams)
         let mut parts = vec![step_no as u64];
